@@ -23,6 +23,7 @@ type propSpec struct {
 	nontrivial       func(s *sim) bool
 	classify         func(s *sim) []string
 	floors           map[string]float64 // label -> minimal fraction of cases (checked at the end of a full run)
+	final            func(s *sim)
 }
 
 func runProp(t *testing.T, sp propSpec) {
@@ -34,6 +35,7 @@ func runProp(t *testing.T, sp propSpec) {
 		st.Guard(tb, c, func() {
 			s = runSim(t, c, sp.own, func(s *sim) {
 				s.afterOp = sp.oracle
+				s.final = sp.final
 				s.wal = func(f string) { st.WALFinding(c, f) }
 				if sp.setup != nil {
 					sp.setup(s)
@@ -854,3 +856,326 @@ func c06Spec() propSpec {
 }
 
 func TestVerifC06MirrorMinority(t *testing.T) { runProp(t, c06Spec()) }
+
+// ---------------------------------------------------------------------------
+// C11: consumers see strictly newer, growing views and end up current
+
+type viewKey struct {
+	H uint64
+	R uint32
+}
+
+type viewTrack struct {
+	lastVersion uint32
+	phs         map[string]bool
+	signers     [2]map[string]map[int]bool
+	seen        bool
+}
+
+func newViewTrack() *viewTrack {
+	return &viewTrack{phs: map[string]bool{}, signers: [2]map[string]map[int]bool{{}, {}}}
+}
+
+// observeView checks one received view against what the same consumer got before for that round.
+func (s *sim) c11Observe(consumer string, tracks map[viewKey]*viewTrack, v *tmconsensus.VersionedRoundView, strictVersion bool) {
+	if v == nil || v.Height == 0 || s.fail != nil {
+		return
+	}
+	k := viewKey{v.Height, v.Round}
+	tr := tracks[k]
+	if tr == nil {
+		tr = newViewTrack()
+		tracks[k] = tr
+	}
+	if tr.seen {
+		if strictVersion && v.Version <= tr.lastVersion {
+			s.failf("", "version-not-increasing", "%s received view %d/%d with version %d after version %d", consumer, v.Height, v.Round, v.Version, tr.lastVersion)
+			return
+		}
+		if !strictVersion && v.Version < tr.lastVersion {
+			s.failf("", "version-regressed", "%s received view %d/%d with version %d after version %d", consumer, v.Height, v.Round, v.Version, tr.lastVersion)
+			return
+		}
+	}
+	now := map[string]bool{}
+	for _, ph := range v.ProposedHeaders {
+		now[string(ph.Header.Hash)+"|"+string(ph.Signature)] = true
+	}
+	for ph := range tr.phs {
+		if !now[ph] {
+			s.failf("", "proposal-disappeared", "%s: view %d/%d version %d lacks a proposed header that version %d had", consumer, v.Height, v.Round, v.Version, tr.lastVersion)
+			return
+		}
+	}
+	for kind, m := range []map[string]gcrypto.CommonMessageSignatureProof{v.PrevoteProofs, v.PrecommitProofs} {
+		cur := map[string]map[int]bool{}
+		for hash, p := range m {
+			var bs bitset.BitSet
+			p.SignatureBitSet(&bs)
+			set := map[int]bool{}
+			for i, ok := bs.NextSet(0); ok; i, ok = bs.NextSet(i + 1) {
+				set[int(i)] = true
+			}
+			cur[hash] = set
+		}
+		for hash, old := range tr.signers[kind] {
+			for i := range old {
+				if !cur[hash][i] {
+					s.failf("", "vote-disappeared", "%s: view %d/%d version %d lost the kind=%d vote of validator %d for %s that version %d had", consumer, v.Height, v.Round, v.Version, kind, i, hx([]byte(hash)), tr.lastVersion)
+					return
+				}
+			}
+		}
+		tr.signers[kind] = cur
+	}
+	tr.phs = now
+	tr.lastVersion = v.Version
+	tr.seen = true
+}
+
+func c11Oracle(s *sim, op Op, idx int) {
+	if s.c11 == nil {
+		s.c11 = &c11State{gs: map[viewKey]*viewTrack{}, sm: map[viewKey]*viewTrack{}}
+	}
+	st := s.c11
+	if op.K == "restart" || op.K == "start" {
+		// version counters restart with the process
+		st.gs, st.sm = map[viewKey]*viewTrack{}, map[viewKey]*viewTrack{}
+		st.gsSeen, st.smSeen = s.incStartGS, s.incStartSM
+		st.nilVoted, st.pendingNil, st.prevVoting = nil, nil, viewKey{}
+	}
+	for ; st.gsSeen < len(s.gsRecv); st.gsSeen++ {
+		u := s.gsRecv[st.gsSeen].U
+		// one update never carries the same round twice with different content; every view must be newer
+		s.c11Observe("gossip", st.gs, u.Committing, true)
+		s.c11Observe("gossip", st.gs, u.Voting, true)
+		s.c11Observe("gossip", st.gs, u.NextRound, true)
+		if u.NilVotedRound != nil {
+			st.nilVoted = append(st.nilVoted, u.NilVotedRound)
+			s.label("gossip-nilvoted")
+		}
+	}
+	for ; st.smSeen < len(s.smRecv); st.smSeen++ {
+		r := s.smRecv[st.smSeen]
+		if r.Entrance {
+			// a new round: the state machine starts a fresh sequence for it
+			delete(st.sm, viewKey{r.H, r.R})
+			st.smEnt = viewKey{r.H, r.R}
+			st.smJump = false
+			if r.V.VRV.Height > 0 {
+				s.c11Observe("state machine (entrance response)", st.sm, &r.V.VRV, true)
+			}
+			continue
+		}
+		if r.V.VRV.Height > 0 {
+			if (viewKey{r.V.VRV.Height, r.V.VRV.Round}) != st.smEnt {
+				s.failf("", "view-for-other-round", "state machine is on %d/%d and received a view for %d/%d", st.smEnt.H, st.smEnt.R, r.V.VRV.Height, r.V.VRV.Round)
+				return
+			}
+			s.c11Observe("state machine", st.sm, &r.V.VRV, true)
+		}
+		if j := r.V.JumpAheadRoundView; j != nil {
+			st.smJump = true
+			s.label("sm-jumpahead")
+			if j.Height < st.smEnt.H || (j.Height == st.smEnt.H && j.Round <= st.smEnt.R) {
+				s.failf("", "jumpahead-not-ahead", "state machine on %d/%d received a jump-ahead view for %d/%d", st.smEnt.H, st.smEnt.R, j.Height, j.Round)
+				return
+			}
+		}
+	}
+	if s.fail != nil || !s.alive {
+		return
+	}
+	// the round left by a nil commit / full vote: its justification must reach gossip (when the reader is not stalled)
+	if st.prevVoting.H == s.vv.Height && s.vv.Round > st.prevVoting.R && st.prevVoting.H != 0 {
+		s.label("round-advanced")
+		if j := s.roundLeftJustification(st.prevVoting.H, st.prevVoting.R); j != "" {
+			if s.gsStalled {
+				// the single NilVotedRound slot is overwritten when the reader has not taken the previous one
+				for i := range st.pendingNil {
+					st.pendingNil[i].Overwritten = true
+				}
+			}
+			st.pendingNil = append(st.pendingNil, pendingNil{K: st.prevVoting, Why: j, Step: s.step})
+		}
+	}
+	st.prevVoting = viewKey{s.vv.Height, s.vv.Round}
+	if !s.gsStalled {
+		for _, p := range st.pendingNil {
+			found := false
+			for _, nv := range st.nilVoted {
+				if nv.Height == p.K.H && nv.Round == p.K.R && s.viewJustifies(nv) {
+					found = true
+				}
+			}
+			if !found && p.Overwritten {
+				if vk.Excluded("C11-F1") {
+					s.excluded["C11-F1"]++
+					continue
+				}
+				s.failf("C11-F1", "nil-round-votes-not-gossiped", "voting round left %d/%d at step %d (%s) while the gossip reader was stalled and a later round was left before it resumed: the earlier round's votes were never handed to gossip", p.K.H, p.K.R, p.Step, p.Why)
+				return
+			}
+			if !found {
+				s.failf("", "nil-round-votes-not-gossiped", "voting round left %d/%d at step %d (%s) but the gossip strategy, fully drained, never received that round's view with the justifying precommits", p.K.H, p.K.R, p.Step, p.Why)
+				return
+			}
+		}
+		st.pendingNil = nil
+		// drained gossip reader holds the mirror's current views
+		if g := st.gs[viewKey{s.vv.Height, s.vv.Round}]; g == nil || g.lastVersion != s.vv.Version {
+			have := uint32(0)
+			if g != nil {
+				have = g.lastVersion
+			}
+			s.failf("", "gossip-not-current", "gossip reader is drained but its latest voting view %d/%d has version %d, the mirror's has %d", s.vv.Height, s.vv.Round, have, s.vv.Version)
+			return
+		}
+		if s.cv.Height > 0 {
+			if g := st.gs[viewKey{s.cv.Height, s.cv.Round}]; g == nil || g.lastVersion != s.cv.Version {
+				s.failf("", "gossip-not-current", "gossip reader is drained but lacks the mirror's committing view %d/%d version %d", s.cv.Height, s.cv.Round, s.cv.Version)
+				return
+			}
+		}
+	}
+	if !s.smStalled && s.n.entered {
+		e := viewKey{s.n.entH, s.n.entR}
+		switch {
+		case e == viewKey{s.vv.Height, s.vv.Round}:
+			if g := st.sm[e]; g == nil || g.lastVersion != s.vv.Version {
+				have := uint32(0)
+				if g != nil {
+					have = g.lastVersion
+				}
+				s.failf("", "state-machine-not-current", "state machine reader is drained on voting round %d/%d with version %d, the mirror's view has %d", e.H, e.R, have, s.vv.Version)
+				return
+			}
+		case e.H == s.vv.Height && e.R < s.vv.Round:
+			// the mirror left the state machine's round: it must have been told why
+			g := st.sm[e]
+			last := s.lastSMView(e)
+			if !(st.smJump || (g != nil && last != nil && s.viewJustifies(last))) {
+				s.failf("", "state-machine-left-behind", "mirror voting round is %d/%d, the state machine (drained) is still on %d/%d and received neither a view with the votes that ended the round nor a jump-ahead", s.vv.Height, s.vv.Round, e.H, e.R)
+				return
+			}
+		}
+	}
+}
+
+type pendingNil struct {
+	K           viewKey
+	Why         string
+	Step        int
+	Overwritten bool
+}
+
+type c11State struct {
+	gs, sm         map[viewKey]*viewTrack
+	gsSeen, smSeen int
+	nilVoted       []*tmconsensus.VersionedRoundView
+	pendingNil     []pendingNil
+	prevVoting     viewKey
+	smEnt          viewKey
+	smJump         bool
+}
+
+// roundLeftJustification: the votes stored for (h, r) that make leaving the round a nil commit / full vote ("" when it was a skip).
+func (s *sim) roundLeftJustification(h uint64, r uint32) string {
+	_, _, pc, err := s.d.rs.LoadRoundState(context.Background(), h, r)
+	if err != nil {
+		return ""
+	}
+	set := s.setFor(h)
+	union := map[int]bool{}
+	nilPow := new(big.Int)
+	blockMajority := false
+	for hash, sigs := range pc.BlockSignatures {
+		ok, _ := checkSigs(set, 1, h, r, hash, sigs)
+		for i := range ok {
+			union[i] = true
+		}
+		if hash == "" {
+			nilPow = powerOf(set, ok)
+		} else if exceedsTwoThirds(powerOf(set, ok), set.total()) {
+			blockMajority = true
+		}
+	}
+	if exceedsTwoThirds(nilPow, set.total()) {
+		return "nil precommit majority"
+	}
+	if !blockMajority && powerOf(set, union).Cmp(set.total()) == 0 {
+		return "all precommits present without a majority"
+	}
+	return ""
+}
+
+func (s *sim) viewJustifies(v *tmconsensus.VersionedRoundView) bool {
+	set := s.setFor(v.Height)
+	_, _, per, _, tot := recomputeSummary(set, nil, v.PrecommitProofs)
+	if n, ok := per[""]; ok && exceedsTwoThirds(n, set.total()) {
+		return true
+	}
+	for hash, p := range per {
+		if hash != "" && exceedsTwoThirds(p, set.total()) {
+			return false
+		}
+	}
+	return tot.Cmp(set.total()) == 0
+}
+
+func (s *sim) lastSMView(k viewKey) *tmconsensus.VersionedRoundView {
+	for i := len(s.smRecv) - 1; i >= 0; i-- {
+		r := s.smRecv[i]
+		if r.V.VRV.Height == k.H && r.V.VRV.Round == k.R {
+			v := r.V.VRV
+			return &v
+		}
+		if r.Entrance {
+			break
+		}
+	}
+	return nil
+}
+
+// c11Final: received views were never modified after receipt (aliasing).
+func c11Final(s *sim) {
+	for _, r := range s.gsRecv {
+		if d := digestGossip(r.U); d != r.Digest {
+			s.failf("", "received-view-mutated", "a gossip update received at step %d changed after receipt", r.Step)
+			return
+		}
+	}
+	for _, r := range s.smRecv {
+		d := digestSMView(r.V)
+		if r.Entrance {
+			d = digestVRV(&r.V.VRV)
+		}
+		if d != r.Digest {
+			s.failf("", "received-view-mutated", "a state machine view received at step %d changed after receipt", r.Step)
+			return
+		}
+	}
+}
+
+func c11Spec() propSpec {
+	return propSpec{
+		prop: "C11", test: "TestVerifC11ConsumerViews",
+		rule: "histories of 4-45 ops against one real Mirror with explicit consumer schedules: both output channels are drained only when an op says so (stall / resume / read n), state machine entrances race with view shifts, honest macro rounds incl. nil rounds and partial votes, next-round votes that make the mirror skip, proposals, concurrent groups; per consumer and round: versions strictly increase, proposals and signer sets only grow, received values never change after receipt, a drained consumer holds the mirror's current view, and a round left by nil commit / full vote / skip is explained to the state machine (votes or jump-ahead) and to gossip (NilVotedRound); non-trivial = a view shift (commit or round change) happened while a consumer was stalled with an update pending; distinct = fingerprint of (config, op list)",
+		profile: genProfile{
+			w:              map[string]int{"ph": 3, "vote": 8, "round": 8, "sment": 4, "smact": 2, "stall": 4, "read": 4, "conc": 1},
+			phVariants:     []int{phFresh, phFresh, phAltNext, phBadSig},
+			pcpVariants:    []int{pcpExact},
+			voteCorr:       []int{vcNone, vcNone, vcFlip},
+			replayVariants: []int{rvHonest},
+			minOps:         4, maxOps: 45,
+			dh: []int{0, 0, 0, 0, -1, 1}, dr: []int{0, 0, 0, 1, 1},
+			multiTarget: true,
+			nilRounds:   true,
+		},
+		oracle: c11Oracle,
+		final:  c11Final,
+		nontrivial: func(s *sim) bool { return s.labels["shift-while-stalled"] > 0 },
+	}
+}
+
+func TestVerifC11ConsumerViews(t *testing.T) { runProp(t, c11Spec()) }
